@@ -200,6 +200,55 @@ fn execute_with(case: &(usize, usize, usize), cookie: &str, peer_cookie: &str, c
     })
 }
 
+/// Node level: a connect that fails (refused status, wrong digest, peer closing before its acknowledgement) leaves no
+/// connection behind: the peer is not listed, a repeated connect runs a full handshake again (and fails again when the
+/// peer still does not prove the cookie), and only a handshake with a conforming peer makes it listed.
+fn node_connect_failures_exec(kind: &usize, ctx: &WorkerCtx) -> ExecResult {
+    let kind = *kind;
+    run_rt(async move {
+        let mut res = ExecResult::default();
+        let w = World::new(ctx.heartbeat.clone(), &ctx.listeners).await;
+        w.gates.set_active(&[]);
+        let mut node = edp_node::Node::new("me@127.0.0.1", COOKIE);
+        if let Err(e) = node.start(0).await { res.violations.push(("node.start failed".into(), json!({"error": e.to_string()}))); return res; }
+        let node = std::sync::Arc::new(node);
+        let what = ["status not_allowed", "wrong digest", "peer closes before its acknowledgement"][kind % 3];
+        for attempt in 0..2 {
+            let n2 = node.clone();
+            let mut h = tokio::spawn(async move { n2.connect(PEER_NAME).await });
+            // the attempt must reach the peer: a connect that returns without a handshake has not authenticated anybody
+            let mut peer = None;
+            for _ in 0..20_000 { if let Ok((s, _)) = w.peer_listener.accept() { peer = Some(Peer::new(s)); break; } if h.is_finished() { break; } w.yield_once().await; }
+            match peer.as_mut() {
+                Some(p) => {
+                    match kind % 3 {
+                        0 => { for _ in 0..10_000 { p.pump(); if p.log.len() > 4 { break; } w.yield_once().await; } p.send(&frame(&hs_status("not_allowed"), 2)); }
+                        1 => { let _ = w.peer_handshake_mode(p, flags_default(), &[], 1).await; }
+                        _ => { let _ = w.peer_handshake_mode(p, flags_default(), &[], 2).await; }
+                    }
+                }
+                None => {}
+            }
+            for _ in 0..200_000 { w.yield_once().await; if let Some(p) = peer.as_mut() { p.pump(); } if h.is_finished() { break; } }
+            let r = if h.is_finished() { (&mut h).await.ok() } else { h.abort(); None };
+            let listed = node.connections().contains_key(PEER_NAME);
+            let ok = matches!(r, Some(Ok(())));
+            if ok || listed || peer.is_none() {
+                res.violations.push(("a node lists a peer as connected (or connect returns Ok) although the peer never proved the cookie".into(), json!({"peer_behaviour": what, "attempt": attempt + 1, "connect_returned_ok": ok, "peer_listed": listed, "handshake_reached_the_peer": peer.is_some()})));
+                return res;
+            }
+        }
+        // a conforming peer afterwards is connected normally
+        let n2 = node.clone();
+        let mut h = tokio::spawn(async move { n2.connect(PEER_NAME).await });
+        let good = match w.accept_peer().await { Some(mut p) => { let hs = w.peer_handshake(&mut p, flags_default()).await; for _ in 0..20_000 { w.yield_once().await; if h.is_finished() { break; } } hs.is_ok() && h.is_finished() && matches!((&mut h).await, Ok(Ok(()))) } None => false };
+        if !good || !node.connections().contains_key(PEER_NAME) { res.violations.push(("after failed attempts a conforming peer cannot be connected".into(), json!({"peer_behaviour": what}))); }
+        res.steps = 3;
+        res.outcome = format!("node connect failures {}", kind);
+        res
+    })
+}
+
 pub fn run(rep: &Report) -> Value {
     let mut cases = vec![];
     for s in 0..STATUS.len() { for c in 0..CHALLENGE.len() { for a in 0..ACK.len() {
@@ -221,7 +270,10 @@ pub fn run(rep: &Report) -> Value {
         for other in [c.trim().to_string(), format!(" {}", c), c.to_lowercase()] { if other != c { ck.push((c.to_string(), other)); } }
     }
     let st_c: Stats = for_all(rep, "cookies with whitespace and case", &ck, |c, ctx| execute_with(&(0, 0, 0), &c.0, &c.1, ctx));
+    let nk = [0usize, 1, 2];
+    let st_n: Stats = for_all(rep, "Node::connect against peers that do not prove the cookie, repeated", &nk, |c, ctx| node_connect_failures_exec(c, ctx));
     json!({
+        "node_level_executions": st_n.executions,
         "states": st.executions + st_c.executions,
         "transitions": st.transitions + st_c.transitions,
         "traces_validated_against_impl": st.executions + st_c.executions,
